@@ -84,6 +84,11 @@ package app
 //@   props C08, C03
 //@   witness byteRange = "bytes=-1", contentLength = 0
 //@   witness byteRange = "bytes=-0", contentLength = 5
+//@   witness byteRange = "bytes=5-", contentLength = 5
+//@   witness byteRange = "bytes=0-", contentLength = 0
+//@   witness byteRange = "bytes=2-1", contentLength = 5
+//@   witness byteRange = "bytes=4-9", contentLength = 5
+//@   witness byteRange = "bytes=-9", contentLength = 5
 //@   requires contentLength >= 0
 //@   top-ensures err == nil ==> 0 <= startPos && startPos <= endPos && endPos < contentLength
 //@   ensures err == nil ==> len(byteRange) >= 8 && matchAt(byteRange, 0, "bytes=")
